@@ -91,9 +91,9 @@ PROPS['C09'] = dict(
         V('znx'), V('vec_znx_arith'), V('vec_znx_ring'), V('vec_znx_merge'), V('vec_znx_split'), V('vec_znx_big'), V('galois'),
         K('poulpy-cpu-ref', 'verif_kani', ['c09_mask_mod_i64', 'c09_mask_mod_usize', 'c03_mask_mod_u64'], cls='complete', timeout=600,
           functions=['leaf fact: p & (m-1) == p mod m for power-of-two m (imported by znx_rotate / znx_automorphism_ref / galois_element proofs)']),
-        K('poulpy-cpu-ref', 'verif_kani::c09_rings', ['c09_merge_rings__g2_n1_s21_r2'], cls='bounded', timeout=900,
+        K('poulpy-cpu-ref', 'verif_kani::c09_rings', ['c09_merge_rings__g2_n1_s21_r2', 'c09_mul_xp_minus_one__n4_a1_r2_p1', 'c09_mul_xp_minus_one__n4_a1_r2_pm5'], cls='bounded', timeout=900,
           bound='2 parts of ring degree 1 (2: thorough) with 2 and 1 limbs (1 and 2: thorough) merged into 2 (3) limbs, two columns; all limb values and the previous result contents symbolic',
-          functions=['vec_znx_merge_rings (index-level model; structure-independent complement of the Verus unit)']),
+          functions=['vec_znx_merge_rings (index-level model; structure-independent complement of the Verus unit)', 'vec_znx_mul_xp_minus_one out of place into a longer, dirty result (N = 4, 1 limb into 2, p = 1 and -5)']),
         K('poulpy-cpu-ref', 'verif_kani::c09_rings', ['c09_merge_rings__g2_n1_s12_r3', 'c09_merge_rings__g2_n2_s21_r2'], cls='bounded', tier='thorough', timeout=1500, bound='as above'),
     ],
     trusted_base=VERUS_TRUST,
@@ -107,7 +107,7 @@ PROPS['C11'] = dict(
     technique='Verus postconditions that define every limb of the selected column from the inputs only, plus frame clauses over all other limb blocks, on the extracted real text',
     level_text='Unbounded proof for the coefficient-domain column operations: each ensures gives final(res).limb(col, j) for all j < size as a function of the read-only inputs (no old(res) on the right-hand side for out-of-place ops) and frame_ok: every block outside (col, 0..size) is unchanged.',
     level_note='Covers the vec_znx_* reference operations, the transform-domain wrappers of vec_znx_dft.rs (fft64 and ntt120, numeric kernels abstract), the GLWE operation wrappers, and -- core layer, as a dependency-flow proof over assumed HAL flow contracts -- gglwe_product_dft, glwe_keyswitch_internal, glwe_keyswitch and glwe_decrypt: with nothing required of the previous contents of res or of the scratch arena, no limb of the result depends on stale bytes (the accumulator taken from scratch must be cleared before the digit-grouped product: for dsize >= 3 its last limbs are only ever added to); idft/svp/vmp/convolution kernels themselves and the other core operations are not covered by this check.',
-    units=[V('vec_znx_arith'), V('vec_znx_ring'), V('vec_znx_merge'), V('vec_znx_split'), V('vec_znx_big'), V('vec_znx_normalize'), V('vec_znx_dft'), V('vec_znx_dft_ntt120'), V('vmp_fft64'), V('vmp_ntt120'), V('cnv_prepare_fft64'), V('cnv_apply_fft64'), V('glwe_ops'), V('core_keyswitch'), V('core_extprod'), V('core_decrypt'),
+    units=[K('poulpy-cpu-ref', 'verif_kani::c09_rings', ['c09_mul_xp_minus_one__n4_a1_r2_p1'], cls='bounded', timeout=900, bound='N = 4, operand 1 limb, result 2 limbs and 2 columns, all values symbolic (|a| < 2^62), stale result', functions=['vec_znx_mul_xp_minus_one (out of place): structure-independent complement of the Verus unit vec_znx_ring']), V('vec_znx_arith'), V('vec_znx_ring'), V('vec_znx_merge'), V('vec_znx_split'), V('vec_znx_big'), V('vec_znx_normalize'), V('vec_znx_dft'), V('vec_znx_dft_ntt120'), V('vmp_fft64'), V('vmp_ntt120'), V('cnv_prepare_fft64'), V('cnv_apply_fft64'), V('glwe_ops'), V('core_keyswitch'), V('core_extprod'), V('core_decrypt'),
            K('poulpy-cpu-ref', 'verif_kani::c11_ak', ['c11_ak_dft_apply__a3_r2_step2_off1', 'c11_ak_dft_apply__a2_r3_step1_off0', 'c11_ak_dft_apply__a3_r3_step2_off0', 'c11_ak_dft_apply__a2_r2_step1_off1'],
              cls='bounded', tier='thorough', timeout=1500, bound='FFT64Ref, N=8, two output columns, (a_size, res_size, step, offset) constant per harness; numeric kernels abstract',
              functions=['VecZnxDftApply::vec_znx_dft_apply (fft64 reference, real shape logic; fft_ref / reim_from_znx_i64_ref / table fills replaced by bit-level mixers)'],
@@ -311,7 +311,7 @@ PROPS['C02'] = dict(
     technique='Verus contracts on the real text of the GLWE operation wrappers (trait default methods of poulpy-core/src/api/operations.rs) against the HAL column contracts that are themselves proved for the reference implementation (units vec_znx_arith / vec_znx_ring, same contract text); Kani bounded contract check of the same wrappers on a marker module as a second, executable reading',
     level_text='Unbounded (every ring degree, rank, limb count, rotation amount, limb value inside the no-overflow domain): glwe_add_into, glwe_add_assign, glwe_sub, glwe_sub_assign, glwe_sub_negate_assign, glwe_negate, glwe_negate_assign, glwe_copy, glwe_rotate, glwe_rotate_assign, glwe_mul_xp_minus_one(+_assign) (for the last four both copies of the text: the public API defaults and the *Default traits Module<BE> dispatches to) apply the exact ring operation column by column with the documented rank rule (missing columns of the lower-rank operand count as zero) and HAL size rule, touch no limb beyond the active size, never panic on an admissible call, and the in-place rotations need exactly glwe_rotate_tmp_bytes of scratch; column-wise equality implies phase equality for every key. glwe_rsh, glwe_lsh(+_assign, _add, _sub), glwe_normalize(+_assign) (both copies): column i of the result is the HAL shift / normalisation (an uninterpreted deterministic function of radix, amount and the operand column only) of column i, columns a lower-rank operand lacks count as zero, nothing else is written, exactly glwe_shift_tmp_bytes / glwe_normalize_tmp_bytes of scratch suffices. Bounded (Kani, N = 2/4, ranks 0..2, sizes 1..2): the same statements checked by executing the real wrappers on symbolic limbs.',
     level_note='The HAL contracts are proved for the reference backend functions; the one-line delegation Module -> backend -> reference function is syntactic (trusted). GGSW variants are not covered; WHAT the HAL shift / normalisation computes is the C08 question (bounded harnesses there), here only its column-wise delegation is proved.',
-    units=[V('glwe_ops'), V('vec_znx_arith'), V('vec_znx_ring'),
+    units=[K('poulpy-cpu-ref', 'verif_kani::c09_rings', ['c09_mul_xp_minus_one__n4_a1_r2_p1'], cls='bounded', timeout=900, bound='N = 4, operand 1 limb, result 2 limbs and 2 columns, all values symbolic (|a| < 2^62), stale result', functions=['vec_znx_mul_xp_minus_one (out of place): structure-independent complement of the Verus unit vec_znx_ring']), V('glwe_ops'), V('vec_znx_arith'), V('vec_znx_ring'),
            K('poulpy-cpu-ref', 'verif_kani::c02', ['c02_glwe_add_sub__ranks_1_1', 'c02_glwe_add_sub__ranks_2_0', 'c02_glwe_add_sub__ranks_0_1', 'c02_glwe_assign_negate_copy__rank1'],
              cls='bounded', timeout=1500, bound='N=2, ranks 0..2, sizes 1..2',
              functions=['GLWEAdd::glwe_add_into/assign', 'GLWESub::glwe_sub/sub_assign', 'GLWENegate::glwe_negate', 'GLWECopy::glwe_copy', 'GLWERotate::glwe_rotate/rotate_assign', 'GLWEMulXpMinusOne::glwe_mul_xp_minus_one']),
